@@ -51,8 +51,13 @@ func (o obj) k8s() runtime.Object {
 			cps = append(cps, corev1.ContainerPort{Name: cp.Name, ContainerPort: int32(cp.Num), Protocol: corev1.Protocol(cp.Proto)})
 		}
 		if o.pod.Kind == "Deployment" {
+			var repl *int32
+			if o.pod.Replicas > 1 {
+				r := int32(o.pod.Replicas)
+				repl = &r
+			}
 			return &appsv1.Deployment{TypeMeta: metav1.TypeMeta{Kind: "Deployment", APIVersion: "apps/v1"}, ObjectMeta: metav1.ObjectMeta{Name: o.pod.Name, Namespace: o.pod.NS},
-				Spec: appsv1.DeploymentSpec{Template: corev1.PodTemplateSpec{ObjectMeta: metav1.ObjectMeta{Labels: o.pod.Labels},
+				Spec: appsv1.DeploymentSpec{Replicas: repl, Template: corev1.PodTemplateSpec{ObjectMeta: metav1.ObjectMeta{Labels: o.pod.Labels},
 					Spec: corev1.PodSpec{Containers: []corev1.Container{{Name: "c", Ports: cps}}}}}}
 		}
 		p := &corev1.Pod{ObjectMeta: metav1.ObjectMeta{Name: o.pod.Name, Namespace: o.pod.NS, Labels: o.pod.Labels},
@@ -107,6 +112,8 @@ func objects() []obj {
 		mkpod("http8080", "default", "p5", "rs2", map[string]string{"app": "b"}, 8080),
 		// a workload object (InsertObject accepts them; DeleteObject does not, so there is no delete operation for it); its pod is default/d1-1
 		{kind: "Deployment", key: "Deployment/default/d1", variant: "http80", pod: &wm.Workload{Kind: "Deployment", NS: "default", Name: "d1", Labels: map[string]string{"app": "b"}, Ports: []wm.CPort{{Name: "http", Num: 80}}}},
+		// the same Deployment with two replicas: going back to one replica must take the second pod away again
+		{kind: "Deployment", key: "Deployment/default/d1", variant: "http80x2", pod: &wm.Workload{Kind: "Deployment", NS: "default", Name: "d1", Labels: map[string]string{"app": "b"}, Ports: []wm.CPort{{Name: "http", Num: 80}}, Replicas: 2}},
 		{kind: "Deployment", key: "Deployment/default/d1", variant: "http8080", pod: &wm.Workload{Kind: "Deployment", NS: "default", Name: "d1", Labels: map[string]string{"app": "b"}, Ports: []wm.CPort{{Name: "http", Num: 8080}}}},
 		{kind: "NetworkPolicy", key: "NetworkPolicy/default/n1", variant: "v1-namespace-omitted", np: &wm.NP{NS: "", Name: "n1", PodSel: wm.Sel{}, Types: []string{"Ingress"},
 			Ingress: []wm.NPRule{{Peers: []wm.NPPeer{{NSSel: wm.ML("team", "x"), Pod: wm.ML("app", "a")}}, Ports: []wm.NPPort{{HasPort: true, Name: "http"}}}}}},
@@ -125,7 +132,7 @@ func objects() []obj {
 	}
 }
 
-var queries = [][4]string{{"a/p1", "default/p3", "tcp", "80"}, {"a/p1", "default/p3", "tcp", "8080"}, {"a/p2", "default/p3", "tcp", "80"}, {"default/p3", "a/p1", "tcp", "80"}, {"a/p1", "default/p4", "tcp", "80"}, {"a/p1", "a/p2", "tcp", "8080"}, {"a/p1", "default/d1-1", "tcp", "80"}, {"a/p1", "default/p5", "tcp", "80"}, {"a/p1", "default/p3", "tcp", "http"}}
+var queries = [][4]string{{"a/p1", "default/p3", "tcp", "80"}, {"a/p1", "default/p3", "tcp", "8080"}, {"a/p2", "default/p3", "tcp", "80"}, {"default/p3", "a/p1", "tcp", "80"}, {"a/p1", "default/p4", "tcp", "80"}, {"a/p1", "a/p2", "tcp", "8080"}, {"a/p1", "default/d1-1", "tcp", "80"}, {"a/p1", "default/p5", "tcp", "80"}, {"a/p1", "default/p3", "tcp", "http"}, {"a/p1", "default/d1-2", "tcp", "80"}}
 
 func ops() []op {
 	var res []op
@@ -147,7 +154,7 @@ func ops() []op {
 		res = append(res, op{name: "q:" + strings.Join(q[:], ","), query: &q})
 	}
 	objs := objects()
-	res = append(res, op{name: "setresources:nsA(team=y)+p3(http8080)+n1(v2)", bulk: []obj{objs[1], objs[8], objs[14]}}, op{name: "clearresources", clear: true})
+	res = append(res, op{name: "setresources:nsA(team=y)+p3(http8080)+n1(v2)", bulk: []obj{objs[1], objs[8], objs[15]}}, op{name: "clearresources", clear: true})
 	return res
 }
 
